@@ -172,17 +172,18 @@ pub struct C03Deep {
 impl C03Deep {
     pub fn build(&self, seed: u64, run: u64) -> DeepSc {
         let mut rng = Rng::for_run(seed, self.id(), run);
-        // runs 54..72: every sibling combination once for arrays and objects (success path: parse + traverse + count + volume)
-        if (54..72).contains(&run) {
-            let i = (run - 54) as usize;
+        // runs 54..72 and 89..98: every sibling combination once for arrays, objects and alternating
+        // levels (success path: parse + traverse + count + volume)
+        if (54..72).contains(&run) || (89..98).contains(&run) {
+            let i = if run >= 89 { (run - 89 + 18) as usize } else { (run - 54) as usize };
             let codes = ["nn", "ns", "nc", "sn", "ss", "sc", "cn", "cs", "cc"];
-            let shape = format!("{}-sib-{}", if i < 9 { "array" } else { "object" }, codes[i % 9]);
+            let shape = format!("{}-sib-{}", if i < 9 { "array" } else if i < 18 { "object" } else { "mixed" }, codes[i % 9]);
             return DeepSc { shape, depth: 100_000, stack_kib: 64, tail: "none".into(), tail_at: 0, via: "str".into(), opts: (false, false), fault: None, outer: None, unit: None };
         }
         // runs 72..80 and one random scenario in twelve: a *matrix* — a wide container of wide containers
         // (and one of three levels): work lists sized from one container's width while another's
         // children are still pending, and stack use that grows with width times width
-        if (72..80).contains(&run) || (run >= 80 && rng.chance(1, 12)) {
+        if (72..80).contains(&run) || (run >= 98 && rng.chance(1, 12)) {
             let fixed: [(bool, bool, u64, u64); 7] = [(false, false, 1000, 300), (false, true, 1000, 300), (true, false, 1000, 300), (true, true, 1000, 300), (false, false, 300, 1000), (true, true, 2000, 100), (false, false, 3000, 257)];
             let i = run.wrapping_sub(72) as usize;
             let (outer_obj, inner_obj, n1, n2) = if i < fixed.len() { fixed[i] } else { (rng.chance(1, 2), rng.chance(1, 2), *rng.pick(&[100u64, 300, 1000, 2500]), *rng.pick(&[65u64, 129, 257, 300, 1000])) };
